@@ -60,7 +60,8 @@ def logical_ifs(tier):
 
 def block_ifs(tier):
     c1s = CONDS[:4] if tier == "quick" else CONDS
-    c2s = ["X.GT.1", "B.GT.2"]
+    # "X.LT.-1" can hold where the X-only first conditions fail (X.GT.1 cannot when the first condition is X.GT.0)
+    c2s = ["X.GT.1", "X.LT.-1", "B.GT.2"]
     S = BRANCH_ST
     out = []
     for c in c1s:
@@ -78,6 +79,11 @@ def block_ifs(tier):
         out.append(("T5", f"IF ({c}) THEN\n{s1}\nELSE\n{s2}\n{s3}\nENDIF"))
     for c, c2, s1, s2, s3 in itertools.product(c1s, c2s, S[:2], S, S[2:]):
         out.append(("T6", f"IF ({c}) THEN\n{s1}\nIF ({c2}) THEN\n{s2}\nENDIF\nELSE\n{s3}\nENDIF"))
+    # three branches assigning different sets of symbols, conditions on data only, a two-statement ELSE
+    for c, c2, s1, s2, s3, s4 in itertools.product(["X.GT.0", "X<=0"], ["X.LT.-1", "X.GT.1"], S, S, S[:2], S[2:]):
+        out.append(("T7", f"IF ({c}) THEN\n{s1}\nELSE IF ({c2}) THEN\n{s2}\nELSE\n{s3}\n{s4}\nENDIF"))
+    for c, c2, c3, s1, s2, s3 in itertools.product(["X.GT.1"], ["X.GT.0"], ["X.LT.-1"], S, S, S):
+        out.append(("T8", f"IF ({c}) THEN\n{s1}\nELSE IF ({c2}) THEN\n{s2}\nELSE IF ({c3}) THEN\n{s3}\nENDIF"))
     for c, c2, s1, s2 in itertools.product(c1s[:2], c2s, S[:2], S[2:]):
         out.append(("T6b", f"IF ({c}) THEN\nIF ({c2}) {s1}\nELSE\n{s2}\nENDIF"))
     return out
